@@ -33,6 +33,9 @@ struct Res {
     claims: Vec<[u8; 4]>,
     calls: Vec<Call>,
     controller: bool,
+    /// (time, address, address of another machine): at that time the machine starts to own the address and makes
+    /// itself known by resolving the other address (its request carries its own address pair)
+    late_claim: Option<(u64, [u8; 4], [u8; 4])>,
 }
 
 #[async_trait::async_trait]
@@ -48,6 +51,16 @@ impl Protocol for Res {
             emit(json!({"ev":"claim","m":self.m,"ip":c,"mac":mac}));
         }
         initialized.wait().await;
+        if let Some((at, ip, other)) = self.late_claim {
+            let (m, machine) = (self.m, machine.clone());
+            tokio::spawn(async move {
+                tokio::time::sleep(Duration::from_micros(at)).await;
+                let arp = machine.protocol::<Arp>().unwrap();
+                arp.listen(Ipv4Address::new(ip));
+                emit(json!({"ev":"claim","m":m,"ip":ip,"mac":mac}));
+                let _ = arp.resolve(AddressPair { local: Ipv4Address::new(ip), remote: Ipv4Address::new(other) }, 0, machine.clone()).await;
+            });
+        }
         let mut calls = self.calls.clone();
         calls.sort_by_key(|c| c.at_us);
         let mut now = 0u64;
@@ -125,6 +138,21 @@ pub fn scenario(run: u64, rng: &mut SmallRng) {
         };
         calls[m].push(Call { at_us: [0u64, 0, 0, 150_000, 1_900_000, 2_100_000, 500_000][rng.gen_range(0..7)], rid, local: addr(m, 1), remote });
     }
+    // on a loss-free network, sometimes: an address that nobody owns at first is resolved (and fails), its owner
+    // appears later and announces itself, and the address is resolved again
+    let mut late: Vec<Option<(u64, [u8; 4], [u8; 4])>> = vec![None; nm];
+    if loss == 0 && only_kth == 0 && nm >= 3 && rng.gen_range(0..3) == 0 {
+        let (owner, resolver, other) = (0usize, 1usize, 2usize);
+        let ip = [10, 200, 7, 7];
+        // (it asks for an address nobody has, so that the request certainly goes out: its sender fields announce the owner)
+        let _ = other;
+        late[owner] = Some((2_600_000, ip, [10, 200, 9, 9]));
+        let rid0 = calls.iter().map(|c| c.len()).sum::<usize>() as u32;
+        calls[resolver].push(Call { at_us: 0, rid: 100 + rid0, local: addr(resolver, 1), remote: ip });
+        calls[resolver].push(Call { at_us: 4_000_000, rid: 101 + rid0, local: addr(resolver, 1), remote: ip });
+        // (without a subnet configuration, so that the address is resolved itself)
+        subnets[resolver] = None;
+    }
     let sj: Vec<Value> = subnets.iter().map(|s| match s { Some((m, g)) => json!({"set":true,"mask":m,"gw":g}), None => json!({"set":false,"mask":0,"gw":[0,0,0,0]}) }).enumerate().map(|(k, mut v)| { v["addr"] = json!(addr(k, 1)); v }).collect();
     begin_run(run, json!({"nm":nm,"lat":lat,"loss":loss,"only_kth":only_kth,"subnets":sj}));
     let machines: Vec<Arc<Machine>> = (0..nm)
@@ -136,7 +164,7 @@ pub fn scenario(run: u64, rng: &mut SmallRng) {
             Machine::new()
                 .with(arp)
                 .with(Pci::new([net.clone()]))
-                .with(Res { m: k, configured: subnets[k].map(|_| addr(k, 1)), claims: claims[k].clone(), calls: calls[k].clone(), controller: k == 0 })
+                .with(Res { m: k, configured: subnets[k].map(|_| addr(k, 1)), claims: claims[k].clone(), calls: calls[k].clone(), controller: k == 0, late_claim: late[k] })
                 .arc()
         })
         .collect();
